@@ -729,7 +729,7 @@ def mat(pair, key="*"):
 
 def term_of(prog, qname, inline_pkg="sempler.utils"):
     f = prog.func(qname)
-    S = Sym(prog, inline=lambda g: g.module.name == inline_pkg)
+    S = Sym(prog, inline=lambda g: g.public_module.name == inline_pkg)
     summ, _ = run_function(S, f)
     return f, S, T(summ.ret)
 
@@ -1112,7 +1112,7 @@ def precheck_coverage(prog):
     from .pred import npred
     q = "sempler.utils.topological_ordering"
     f = prog.func(q)
-    S = Sym(prog, inline=lambda g: g.module.name == "sempler.utils" and g.qname != q)
+    S = Sym(prog, inline=lambda g: g.public_module.name == "sempler.utils" and g.qname != q)
     run_function(S, f)
     raises = [r for r in S.select("raise", root=q) if r.exctype == "ValueError" and len(r.path) == 1 and r.path[0][1] is True and not r.loops
               and r.qname in (q,) + tuple(x.qname for x in S.facts if x.root == q and x.qname.rsplit(".", 1)[-1].startswith("_"))]
